@@ -142,6 +142,10 @@ func Harness_C01_rebuild_equals_live() {
 	case 9:
 		// the target may be spelled with a trailing slash, a "." segment or a doubled slash
 		err = v.FS.SymlinkIfPossible([]string{"/d/g", "/d/", "/d/./g", "/d//g"}[vm.Choice("linkTarget", 4)], name)
+		if err == nil && vm.Bool("thenRemoveTheLink") {
+			// the link is removed again: the tape now holds a DELETE record that names the link path
+			vm.Assert("C01.remove_link_ok", v.FS.Remove(name) == nil)
+		}
 	}
 	if vm.Tier() == "thorough" {
 		// a history of two calls: the second one on a fixed set of names that interact with the first
